@@ -66,7 +66,7 @@ func verifTrimmedLines(desc string) []string {
 // folded field whose synopsis is the first line and whose unfolding gives back
 // the (whitespace-trimmed) lines, blank lines included; the fields after it survive.
 func Verif_C02_D_IpkDescription() {
-	desc := v.NondetString("description", v.Bound("C02.desclen", 4, 6))
+	desc := v.NondetString("description", v.Bound("C02.desclen", 4, 8))
 	v.Assume(v.AllIn(desc, "ab \n"))
 	info := verifInfo("1.0.0", "", "", "", "")
 	info.Description = desc
